@@ -20,6 +20,16 @@ CLAIMS = {
             "before the first). Tie to the code: bit-exact correspondence of the extracted model with "
             "ControlPoints::add/*_point_at on exhaustive small-alphabet and random histories, plus a linear-scan oracle.",
             "§6 C13"),
+    "C12": ("Unbounded theorems (coq/Properties/C12.v): the pending-option state machine of parse_timing_points "
+            "(push_front/push_back, flush on time change and at the end) equals the run-based legacy_spec written from the "
+            "property text, for every mode, defaults and line sequence (induction, invariant 'pending slots = winners of "
+            "the open run'); runs partition the accepted lines; every list strictly sorted, never a panic, every stored "
+            "value inside its clamp (beat length, slider velocity, scroll speed only in taiko/mania, volume), NaN beat "
+            "length rejected on timing-change lines and switching ticks off on inherited lines, field defaults; numeric "
+            "strictness outside the D8 signed-zero class. Tie to the code: bit-exact correspondence of the extracted "
+            "model with TimingPoints::parse_timing_points + into() on exhaustive small-alphabet and random line "
+            "sequences in all four modes, plus an independent legacy-rule oracle (BTreeMap reference).",
+            "§6 C12"),
     "C05": ("Unbounded theorems (coq/Properties/C05.v): the real three-phase driver (parse_version / parse_first_section / "
             "section loop, incl. the UseCurrentLine flag and the nested loops) equals the one-pass frame_spec written from "
             "the property text, for ANY parser record; corollaries: blank lines irrelevant anywhere, comment lines "
